@@ -323,6 +323,43 @@ pub fn main(args: &[String]) {
         }
     }
 
+    // ---- G1w/G1n/G1i: exhaustive sequences over FOCUSED alphabets (rule interactions need 4-5 characters:
+    // EN ET CS EN, strong ( x ) strong, nested isolates ...), characters rotated over 1..4-unit representatives
+    {
+        let p = |names: &[&str]| names.iter().map(|n| sym(n)).collect::<Vec<usize>>();
+        let weak = p(&["L", "R", "AL", "EN", "AN", "ET", "ES", "CS", "NSM", "BN"]);
+        let neut = p(&["L", "R", "EN", "(", ")", "ON", "NSM", "WS"]);
+        let iso = p(&["L", "R", "LRI", "RLI", "FSI", "PDI", "RLE", "PDF", "("]);
+        let brk5 = p(&["L", "R", "(", ")", "["]);
+        let mut fam_exh = |o: &mut Out, alpha: &Vec<usize>, len: usize, tag: &str, dirs: usize| {
+            let n = alpha.len();
+            let total = n.pow(len as u32);
+            for code in 0..total {
+                let mut c = code;
+                let mut seq = Vec::with_capacity(len);
+                for _ in 0..len { seq.push(alpha[c % n]); c /= n; }
+                for d in 0..dirs {
+                    let salt = o.rng.below(5);
+                    let enc = if o.rng.chance(1, 4) { 16 } else { 8 };
+                    // with two directions: forced LTR and forced RTL (auto is covered by the strong characters)
+                    let dir = if dirs == 2 { dir_of(d + 1) } else { dir_of(d) };
+                    let mut cs = sym_seq_case(&seq, salt, enc, dir, tag);
+                    cs.max_line_chars = 3;
+                    o.emit(&cs);
+                }
+            }
+        };
+        fam_exh(&mut o, &weak, 4, "G1w", 2);
+        fam_exh(&mut o, &neut, 4, "G1n", 2);
+        fam_exh(&mut o, &iso, 4, "G1i", 1);
+        fam_exh(&mut o, &brk5, 5, "G1b", 1);
+        if thorough {
+            fam_exh(&mut o, &weak, 5, "G1w", 1);
+            fam_exh(&mut o, &neut, 5, "G1n", 2);
+            fam_exh(&mut o, &iso, 5, "G1i", 1);
+        }
+    }
+
     // ---- G2: structured random -------------------------------------------------------------------
     let pools = pools();
     let n2 = if thorough { 110000 } else { 9000 };
